@@ -43,3 +43,79 @@ Definition truncate (sum_ : bytes) (mod_ : N) : res N :=
   do t6 <- umod code mod_;
   Val (wrap32 t6).
 
+Fixpoint pow10Wasm_loop1 (fuel : nat) (fuel0 : nat)  (n : Z) (result : N) (i : Z) (kx : N -> Z -> res N) {struct fuel} : res N :=
+  match fuel with O => OutOfFuel | S fuel =>
+  if (Z.ltb i n) then (let result := (wrap64 (N.mul result 10%N)) in
+  let i := (wrap_int64 (Z.add i 1%Z)) in
+  pow10Wasm_loop1 fuel fuel0  n result i kx)
+  else kx result i
+  end.
+
+Definition pow10Wasm (fuel0 : nat) (n : Z) : res N :=
+  let result : N := 1%N in
+  let i := 0%Z in
+  pow10Wasm_loop1 fuel0 fuel0 n result i (fun (result : N) (i : Z) =>
+  Val result).
+
+Fixpoint DeriveRFC4226Wasm_loop1 (fuel : nat) (fuel0 : nat)   (padding : bytes) (i : Z) (kx : bytes -> Z -> res (bytes * (option err))) {struct fuel} : res (bytes * (option err)) :=
+  match fuel with O => OutOfFuel | S fuel =>
+  if (Z.ltb i (zlen padding)) then (do padding <- set_idx padding i 48%N;
+  let i := (wrap_int64 (Z.add i 1%Z)) in
+  DeriveRFC4226Wasm_loop1 fuel fuel0  padding i kx)
+  else kx padding i
+  end.
+
+Definition DeriveRFC4226Wasm (fuel0 : nat) (secret : bytes) (counter : N) (digits : Z) (algo : N) : res (bytes * (option err)) :=
+  let h : (option alg) := None in
+  let t1 := algo in
+  let kj1 := fun (h : (option alg)) =>
+  if ((Z.ltb digits 1%Z) || (Z.ltb 10%Z digits)) then (Val ([], (Some (ESent ErrInvalidCodeLength))))
+  else
+  let buf : bytes := (repeat 0%N 8) in
+  do t2 <- put_uint64 buf counter;
+  let buf := t2 in
+  do t3 <- deref h;
+  let mac := (hmac_new t3 secret) in
+  let mac := (hash_write mac buf) in
+  let sum_ := (hash_sum mac []) in
+  let mod_ : N := 0%N in
+  let kj2 := fun (mod_ : N) =>
+  do t4 <- truncate sum_ mod_;
+  let code := t4 in
+  let s := (dec_of_N code) in
+  let kj3 := fun (s : bytes) =>
+  Val (s, None) in
+  if (Z.ltb (zlen s) digits) then (do t5 <- make_bytes (wrap_int64 (Z.sub digits (zlen s)));
+  let padding := t5 in
+  let i := 0%Z in
+  DeriveRFC4226Wasm_loop1 fuel0 fuel0 padding i (fun (padding : bytes) (i : Z) =>
+  let s := (padding ++ s) in
+  kj3 s))
+  else (kj3 s) in
+  if ((Z.leb 1%Z digits) && (Z.leb digits 9%Z)) then (do t6 <- idxN g_mod10 digits;
+  let mod_ := t6 in
+  kj2 mod_)
+  else (do t7 <- pow10Wasm fuel0 digits;
+  let mod_ := t7 in
+  kj2 mod_) in
+  if ((N.eqb t1 0%N)) then (let h := (Some SHA1) in
+  kj1 h)
+  else if ((N.eqb t1 1%N)) then (let h := (Some SHA256) in
+  kj1 h)
+  else if ((N.eqb t1 2%N)) then (let h := (Some SHA512) in
+  kj1 h)
+  else (Val ([], (Some (ESent ErrUnsupportedAlgorithm)))).
+
+Definition ValidateOTPWasm (fuel0 : nat) (code : bytes) (secret : bytes) (counter : N) (digits : N) (algo : N) : res (bool * (option err)) :=
+  do t1 <- Digits_Int digits;
+  let digitInt := t1 in
+  if (negb (Z.eqb (zlen code) digitInt)) then (Val (false, (Some (ESent ErrInvalidCodeLength))))
+  else
+  do t2 <- DeriveRFC4226Wasm fuel0 secret counter digitInt algo;
+  let '(excepted, err_) := t2 in
+  if (is_some err_) then (Val (false, err_))
+  else
+  if (Z.eqb (ct_compare code excepted) 1%Z) then (Val (true, None))
+  else
+  Val (false, (Some (ESent ErrInvalidCode))).
+
